@@ -126,7 +126,7 @@ Inject(isAck, n, p) ==
 
 \* (a stalled client hides which case was taken until it reads again: only unambiguous iterations then)
 Step ==
-  /\ Guard /\ Q.pc = "gate" /\ (Q.stalled => Cardinality(Ready(Q)) <= 1)
+  /\ Guard /\ Q.pc = "gate" /\ (Q.stalled => Cardinality(Ready(Q)) + (IF CanSilent(Q) THEN 1 ELSE 0) <= 1)
   /\ IF Ready(Q) = {} /\ ~CanSilent(Q) THEN Fin([Q EXCEPT !.pc = "sel"], <<>>, [a |-> "step"])
      ELSE \/ \E r \in Ready(Q) : Fin(Iter(Q, r), Out(Q, r), [a |-> "step"])
           \/ CanSilent(Q) /\ Fin(Silent(Q), <<>>, [a |-> "step"])
